@@ -28,6 +28,8 @@ def mal(n, mod):
 
 ELEMS = {
     "X1": mal("x1", T1), "X2": mal("x2", T2), "X3": mal("x3", T3),
+    "X3us": mal("x3us", "2020-01-03T00:00:00.000400Z"),       # the same millisecond as X3, 400 microseconds later (a distinct 2.1 version)
+    "R1us": dict(type="relationship", spec_version="2.1", id=R1, created=T1, modified="2020-01-01T00:00:00.000001Z", relationship_type="uses", source_ref=X, target_ref=Y),
     "Y": dict(type="tool", spec_version="2.1", id=Y, created=T1, modified=T1, name="y"),
     "I": dict(type="identity", spec_version="2.1", id=I, created=T1, modified=T1, name="creator"),
     "I2": dict(type="identity", spec_version="2.1", id=I, created=T1, modified=T2, name="creator-v2"),
@@ -268,6 +270,25 @@ def run_config(case, part):
             outer.add_data_source(cds)
             target = outer
         check_target("composite" if not case.get("nested") else "nested-composite", target, union, part, case, cfn)
+        pf = case.get("parent_filter")
+        if pf:
+            # SEQUENCE: the composite is first used through a filtered parent (a composite, then an Environment with add_filters), afterwards directly and
+            # through a second, unfiltered parent: what the parent pushed down must not stay behind in the child
+            parent = CompositeDataSource()
+            parent.add_data_source(cds)
+            parent.filters.add(Filter(*CFILTERS[pf][0]))
+            check_target("filtered-parent-composite", parent, union, part, case, pf)
+            check_target("child-after-filtered-parent", cds, union, part, case, cfn, navigation=False)
+            e0 = Environment(source=cds)
+            e0.add_filters([Filter(*CFILTERS[pf][0])])
+            check_target("filtered-environment(source=composite)", e0, union, part, case, pf, navigation=False)
+            check_target("child-after-filtered-environment", cds, union, part, case, cfn, navigation=False)
+            other = CompositeDataSource()
+            other.add_data_source(cds)
+            check_target("second-unfiltered-parent", other, union, part, case, cfn, navigation=True)
+            for m_i, src in enumerate(fx.sources):
+                mu = sorted(set(members[m_i]))
+                check_target("member-after-filtered-parent", src, mu, part, dict(case, members=[mu]), None, navigation=False)
         if case.get("environment", True) and not case.get("nested"):
             e = Environment(source=cds)
             check_target("environment(source=composite)", e, union, part, case, cfn, navigation=case.get("env_navigation", False))
@@ -392,8 +413,18 @@ def run(run):
         for sub in itertools.combinations(POP8 + ["R3"], k):
             if k <= 3 or (th and k <= 5) or k == len(POP8):
                 cases.append({"members": [list(sub)], "single_store": True, "environment": False})
+    # (c2) sequences: the child composite used through a filtered parent first, directly afterwards
+    for members in assignments(["X1", "X3", "Y", "I", "R1"], 2):
+        for pf in ("name!=x3", "type!=identity"):
+            cases.append({"members": members, "parent_filter": pf, "environment": False})
+    # (c3) versions that differ below the millisecond, over 2 and 3 members
+    for members in assignments(["X1", "X3", "X3us", "R1", "R1us", "Y"], 2):
+        cases.append({"members": members, "environment": len(members[0]) == 3, "env_navigation": True})
+    for members in assignments(["X3", "X3us", "X2"], 3):
+        for order in itertools.permutations(range(3)):
+            cases.append({"members": members, "order": list(order), "environment": False})
     # (d) member kinds: filesystem members
-    fsn = ["X1", "X3", "Y", "R1"] if not th else ["X1", "X2", "X3", "Y", "R1", "R1b"]
+    fsn = ["X1", "X3", "X3us", "Y", "R1"] if not th else ["X1", "X2", "X3", "X3us", "Y", "R1", "R1b"]
     for members in assignments(fsn, 2):
         for kinds in (["filesystem", "memory"], ["filesystem", "filesystem"]):
             cases.append({"members": members, "kinds": kinds, "environment": False})
@@ -403,7 +434,8 @@ def run(run):
             cases.append({"members": members, "order": [2, 0, 1], "environment": False})
     run.mode = "DEV+BFS"
     run.rule = ("every assignment of the population to non-empty subsets of the member sources x attachment orders x member kinds x composite filter / nesting, all navigation "
-                "option combinations per configuration; states = distinct configurations; plus the 2x16x81 ObjectFactory.create side-table")
+                "option combinations per configuration; sequences: composite used through a filtered parent composite / filtered Environment first, then directly, through a second parent and member by member; "
+                "versions differing below the millisecond; states = distinct configurations; plus the 2x16x81 ObjectFactory.create side-table")
     run.bound = {"population": POP8, "assignments_2_members": 3 ** len(POP8), "triple_over_3_members": 7 ** 3 * 6, "configurations": len(cases)}
     run.assumptions += ["list model = de-duplicated union of the members' contents (mc/checks/c18_federation.py)", "result order never compared"]
     run.pmap(run_case, cases)
